@@ -48,25 +48,36 @@ def create : Stp := ⟨List.replicate 35 0⟩
 
 def write (_cx : Ctx) (s : Stp) (region : Bytes) : Out Bytes := writeAtStart region s.h
 
-def apply (s : Stp) : List String → Out Stp
-  | ["proto_id", v] => do let n ← natArg v; pure ⟨setBE s.h 0 2 n⟩
-  | ["proto_version", v] => do let n ← natArg v; pure ⟨setU8 s.h 2 n⟩
-  | ["bpdu_type", v] => do let n ← natArg v; pure ⟨setU8 s.h 3 n⟩
-  | ["bpdu_flags", v] => do let n ← natArg v; pure ⟨setU8 s.h 4 n⟩
-  | ["root_path_cost", v] => do let n ← natArg v; pure ⟨setBE s.h 13 4 n⟩
-  | ["port_id", v] => do let n ← natArg v; pure ⟨setBE s.h 25 2 n⟩
-  -- `host_to_be<uint16_t>(v * 256)`: `v` is a uint16_t, the product is truncated to 16 bits
-  | ["msg_age", v] => do let n ← natArg v; pure ⟨setBE s.h 27 2 ((n % 65536) * 256)⟩
-  | ["max_age", v] => do let n ← natArg v; pure ⟨setBE s.h 29 2 ((n % 65536) * 256)⟩
-  | ["hello_time", v] => do let n ← natArg v; pure ⟨setBE s.h 31 2 ((n % 65536) * 256)⟩
-  | ["fwd_delay", v] => do let n ← natArg v; pure ⟨setBE s.h 33 2 ((n % 65536) * 256)⟩
-  | ["root_id", p, e, m] => do
-    let p ← natArg p; let e ← natArg e; let m ← hexArgN m 6
-    pure ⟨setId s.h 5 p e m⟩
-  | ["bridge_id", p, e, m] => do
-    let p ← natArg p; let e ← natArg e; let m ← hexArgN m 6
-    pure ⟨setId s.h 17 p e m⟩
+/-- `host_to_be<uint16_t>(v * 256)`: `v` is a `uint16_t`, the product is truncated to 16 bits -/
+def setAge (h : Bytes) (off : Nat) (v : String) : Out Bytes := do
+  let n ← natArg v
+  pure (setBE h off 2 ((n % 65536) * 256))
+
+def setIdArg (h : Bytes) (off : Nat) (p e m : String) : Out Bytes := do
+  let p ← natArg p
+  let e ← natArg e
+  let m ← hexArgN m 6
+  pure (setId h off p e m)
+
+/-- the setters, on the raw header struct -/
+def applyH (h : Bytes) : List String → Out Bytes
+  | ["proto_id", v] => setNum h 0 2 v
+  | ["proto_version", v] => setNum h 2 1 v
+  | ["bpdu_type", v] => setNum h 3 1 v
+  | ["bpdu_flags", v] => setNum h 4 1 v
+  | ["root_path_cost", v] => setNum h 13 4 v
+  | ["port_id", v] => setNum h 25 2 v
+  | ["msg_age", v] => setAge h 27 v
+  | ["max_age", v] => setAge h 29 v
+  | ["hello_time", v] => setAge h 31 v
+  | ["fwd_delay", v] => setAge h 33 v
+  | ["root_id", p, e, m] => setIdArg h 5 p e m
+  | ["bridge_id", p, e, m] => setIdArg h 17 p e m
   | _ => .throw .stdOther
+
+def apply (s : Stp) (op : List String) : Out Stp := do
+  let h ← applyH s.h op
+  pure ⟨h⟩
 
 def make : List String → Out Stp
   | [] => .ok create
